@@ -17,6 +17,7 @@ struct CsdoRun : NodeEnv {
     };
     Client c[CO_CSDO_N]; std::vector<int> appTimers; int nCsdo = CO_CSDO_N; int m = 2;
     CsdoRun(const Plan &p, Cov &cv, bool vb) : NodeEnv(p, cv, vb) {}
+    bool tight = false;
     static void appCb(void *) {}
     static void doneCb(CO_CSDO *csdo, uint16_t index, uint8_t sub, uint32_t code) { if (W) W->ev(EV_CSDODONE, (int64_t)(csdo - W->S().node->CSdo), ((int64_t)index << 8) | sub, (int64_t)code); }
     uint32_t txId(int n) { return 0x600u + SRV + (uint32_t)n * 0x10; }
@@ -26,7 +27,7 @@ struct CsdoRun : NodeEnv {
         add_mandatory(specs, 1);
         for (int n = 0; n < nCsdo; n++) { uint16_t i = (uint16_t)(0x1280 + n); add_u8(specs, i, 0, CO_OBJ_D___R_, 3); add_u32(specs, i, 1, CO_OBJ_D___R_, 0x600u + (uint32_t)n * 0x10); add_u32(specs, i, 2, CO_OBJ_D___R_, 0x580u + (uint32_t)n * 0x10); add_u8(specs, i, 3, CO_OBJ_D___R_, SRV); }
         add_typed(specs, T_HBPROD, 0x1017, 0, CO_OBJ_____RW, 0);
-        NodeCfg cfg; cfg.nodeId = nodeId; cfg.freq = freq; cfg.tmrNum = 8;
+        tight = plan.c("tight", 0) != 0; NodeCfg cfg; cfg.nodeId = nodeId; cfg.freq = freq; cfg.tmrNum = tight ? (uint16_t)nCsdo : 8; if (tight) cov.hit("F15-timer-pool-without-spare-slot");   // tight: one slot per client and nothing else (no application timers)
         w.build(0, cfg, specs); w.init(0); w.start(0);
         if (CONodeGetErr(N()) != CO_ERR_NONE) fail("setup/node-error", "node reports an error after initialisation");
     }
@@ -151,7 +152,7 @@ struct CsdoRun : NodeEnv {
             // an abort that names another object is not an answer to this transfer (e.g. a late abort of an earlier one): an expedited transfer must go on unaffected
             bool foreignAbort = wasBusy && r.d[0] == 0x80 && (r.u16(1) != c[n].idx || r.d[3] != c[n].sub) && c[n].size <= 4 && !c[n].malformed;
             if (foreignAbort) { cov.hit("foreign-abort-during-expedited-transfer"); nontrivial = true; } else if (wasBusy) { c[n].malformed = true; c[n].exp = E_ANY; } w.rx(0, r); w.canproc(0); cov.frames_in++; harvest(mk, "unsolicited server frame"); cov.hit(wasBusy ? "unsolicited-while-busy" : "unsolicited-while-idle"); }
-        else if (k == "apptmr") { w.cur = 0; if (o.arg(0) && appTimers.size() >= 5) return;   /* capacity is assumed by the property: 8 slots = 5 application timers + 2 clients + 1 spare */
+        else if (k == "apptmr") { w.cur = 0; if (tight) return; if (o.arg(0) && appTimers.size() >= 5) return;   /* capacity is assumed by the property: 8 slots = 5 application timers + 2 clients + 1 spare */
             if (o.arg(0)) { int16_t id = COTmrCreate(&N()->Tmr, (uint32_t)o.arg(1), (uint32_t)o.arg(2) + 1, appCb, nullptr); if (id >= 0) { appTimers.push_back(id); for (auto &x : c) x.slotsBefore++; } } else if (!appTimers.empty()) { (void)COTmrDelete(&N()->Tmr, (int16_t)appTimers.back()); appTimers.pop_back(); for (auto &x : c) x.slotsBefore--; } }
         else if (k == "nmt") { uint8_t cs = (uint8_t)o.arg(0); for (auto &x : c) if (x.busy && (cs == 129 || cs == 130)) { x.exp = E_ANY; cov.hit("reset-while-busy"); nontrivial = true; } w.rx(0, Frame(0, 2, {cs, 0})); w.canproc(0); harvest(mk, "NMT command");
             if ((cs == 129 || cs == 130) && v.ok) { for (int n = 0; n < nCsdo; n++) if (c[n].busy) { fail("csdo/busy-survives-reset", "the transfer in progress was neither completed nor aborted by the NMT reset (no completion callback)"); return; } } if (cs == 2) m = 4; else if (cs == 1) m = 3; else m = 2; }
@@ -172,7 +173,7 @@ struct CsdoRun : NodeEnv {
 };
 
 Plan gen_csdo(Rng &r, bool thorough) {
-    Plan p; uint32_t f = r.pick<uint32_t>({1000, 1000, 10000, 100}); p.cfg["freq"] = f;
+    Plan p; uint32_t f = r.pick<uint32_t>({1000, 1000, 10000, 100}); p.cfg["freq"] = f; p.cfg["tight"] = r.chance(1, 4);
     int transfers = (int)r.range(1, thorough ? 8 : 5);
     for (int t = 0; t < transfers; t++) {
         int64_t n = r.below(2); bool up = r.chance(1, 2);
